@@ -311,6 +311,8 @@
             Ev::Send(Sent::EncryptionRequest { server_id, public_key, verify_token, should_authenticate }) => {
                 let accept = cookie_accept(cfg, d, cookie, clock);
                 if public_key != pub_key() { L::Bad }
+                // C01: the verify token issued on this connection is a fresh draw from the OS RNG (never a constant, a reused or a derived value)
+                else if !from_os_rng(verify_token) { L::Bad }
                 // authentication is skipped exactly for a valid, unexpired, same-IP signed cookie
                 else if should_authenticate != !accept { L::Bad }
                 else if accept {
